@@ -23,9 +23,15 @@ TripShape(n, dir, veh, marked, sts) ==
      nUpd |-> n, nChg |-> n - 1, nRew |-> -1]
 
 Init == j = <<>> /\ pc = "build"
+(* the first trip takes every shape (780); further trips a spread of 60 shapes (every presence pattern still occurs) *)
+StListsFew == {<<>>} \cup {<<a>> : a \in {x \in StShapes : x.stop = 1 /\ (x.arr = None <=> x.dep = None)}}
 AddTrip == /\ pc = "build" /\ Len(j) < MaxTrips
-           /\ \E dir \in {0, 1, 2}, veh \in {0, 1}, m \in OptT, sts \in StLists :
-                 j' = Append(j, TripShape(Len(j) + 1, dir, veh, m, sts))
+           /\ \/ /\ j = <<>>
+                 /\ \E dir \in {0, 1, 2}, veh \in {0, 1}, m \in OptT, sts \in StLists :
+                       j' = Append(j, TripShape(Len(j) + 1, dir, veh, m, sts))
+              \/ /\ j # <<>>
+                 /\ \E dir \in {0, 2}, veh \in {0, 1}, m \in {None, Some(55)}, sts \in StListsFew :
+                       j' = Append(j, TripShape(Len(j) + 1, dir, veh, m, sts))
            /\ pc' = pc
 Finish == pc = "build" /\ pc' = "done" /\ j' = j
 Next == AddTrip \/ Finish
